@@ -208,3 +208,15 @@ Fixpoint grun (fx : fixes) (cf : codec_fns) (rf : rec_fns) (sf : sps_fns) (acfg 
     | Err e => (oks, Some (1000 + e))
     end
   end.
+
+(* the state a history leaves behind (None if a step did not return) *)
+Fixpoint gfinal (fx : fixes) (cf : codec_fns) (rf : rec_fns) (sf : sps_fns) (acfg : amf_cfg) (c : grp_cfg)
+         (g : grp_st) (l : list gev) : option grp_st :=
+  match l with
+  | [] => Some g
+  | e :: t =>
+    match gstep fx cf rf sf acfg c g e with
+    | Ok (g', _) => gfinal fx cf rf sf acfg c g' t
+    | _ => None
+    end
+  end.
